@@ -812,7 +812,7 @@ def ty_clause(opset, text, oid):
 
 
 UNITS["v_op_types"] = dict(
-    prop=["C01", "C02"], tier="q", prelude=["optypes.rs"],
+    prop=["C01", "C02"], tier="q", prelude=["optypes.rs"], native_witness={"C01": ["op_typing"], "C02": ["op_typing"]},
     fns=[dict(
         id="op_type_info", file=OPRS, impl="impl Expression for Op", name="type_info",
         orig_sig="fn type_info(&self, state: &TypeState) -> TypeInfo",
@@ -846,7 +846,7 @@ UNITS["v_op_types"] = dict(
 )
 
 UNITS["v_control_types"] = dict(
-    prop=["C01", "C02"], tier="q", prelude=["optypes.rs"],
+    prop=["C01", "C02"], tier="q", prelude=["optypes.rs"], native_witness={"C01": ["op_typing"], "C02": ["op_typing"]},
     fns=[
         dict(id="if_type_info", file=EXPR + "if_statement.rs", impl="impl Expression for IfStatement", name="type_info",
              orig_sig="fn type_info(&self, state: &TypeState) -> TypeInfo",
